@@ -193,7 +193,7 @@ impl ModelW {
                         Some(m_signer_from_seed(&arr32(&rng_prefix(&stream, 32))))
                     }
                     1 => Some(m_signer_from_seed(&b.a32())),
-                    2 => {
+                    2 | 6 => {
                         let sg = m_signer_from_seed(&b.a32());
                         if b.0.len() == 64 && b.0[32..] == sg.pk[..] {
                             Some(sg)
@@ -256,11 +256,26 @@ impl ModelW {
                     o.b("sig", &sig);
                     // the signer's own verification wrappers accept what it just produced
                     o.f("self_verify", true);
+                    if sg.seed.is_some() {
+                        // ... and treat a crafted signature with R = identity like the verifying key does:
+                        // accepted by verify, rejected by verify_strict (R has small order)
+                        o.f("wrapper_identity_R_lenient", true);
+                        o.f("wrapper_identity_R_strict", false);
+                    }
                 }
             }
-            Step::Ver { mode, key, m, sig, ctx, ch: _, chosen, d: _ } => {
+            Step::Ver { mode, key, m, sig, ctx, ch: _, chosen, d: _, ksrc } => {
                 let ch = chosen.as_ref().map(|c| c.a64());
-                let (key_ok, sig_ok, verdict) = m_verify(*mode, &key.0, &m.0, &sig.0, ctx.as_ref().map(|c| c.0.as_slice()), ch.as_ref());
+                // the key bytes the verifier ends up holding
+                let kb: Vec<u8> = match ksrc {
+                    1 => Pt::IDENTITY.encode().to_vec(),
+                    2 if key.0.len() == 32 => match Pt::decode(&key.a32()) {
+                        Some(p) => p.encode().to_vec(),
+                        None => key.0.clone(),
+                    },
+                    _ => key.0.clone(),
+                };
+                let (key_ok, sig_ok, verdict) = m_verify(*mode, &kb, &m.0, &sig.0, ctx.as_ref().map(|c| c.0.as_slice()), ch.as_ref());
                 o.f("key_ok", key_ok);
                 o.f("sig_ok", sig_ok);
                 if let Some(v) = verdict {
@@ -633,6 +648,16 @@ impl RealW {
                     }
                     1 => Some(RSigner::Key(SigningKey::from_bytes(&b.a32()))),
                     2 => SigningKey::from_keypair_bytes(&b.a64()).ok().map(RSigner::Key),
+                    6 => {
+                        // the PKCS#8 keypair route: same rule as from_keypair_bytes
+                        let kb = ed25519_dalek::pkcs8::KeypairBytes::from_bytes(&b.a64());
+                        let r1 = SigningKey::try_from(&kb).ok();
+                        let r2 = SigningKey::try_from(kb).ok();
+                        if r1.is_some() != r2.is_some() {
+                            o.f("pkcs8_routes_disagree", true);
+                        }
+                        r1.map(RSigner::Key)
+                    }
                     3 => SigningKey::try_from(&b.0[..]).ok().map(RSigner::Key),
                     4 => {
                         let esk = ExpandedSecretKey::from_bytes(&b.a64());
@@ -717,10 +742,27 @@ impl RealW {
                         _ => true,
                     };
                     o.f("self_verify", sv && clone_ok);
+                    if let RSigner::Key(sk) = sg {
+                        use sha2::Digest;
+                        let rb = curve25519_dalek::edwards::CompressedEdwardsY([1, 0, 0, 0, 0, 0, 0, 0, 0, 0, 0, 0, 0, 0, 0, 0, 0, 0, 0, 0, 0, 0, 0, 0, 0, 0, 0, 0, 0, 0, 0, 0]);
+                        let mut h = Sha512::new();
+                        h.update(rb.as_bytes());
+                        h.update(sk.verifying_key().as_bytes());
+                        h.update(&m.0);
+                        let k = Scalar::from_hash(h);
+                        let sv = k * sk.to_scalar();
+                        let crafted = Signature::from_components(rb.to_bytes(), sv.to_bytes());
+                        o.f("wrapper_identity_R_lenient", sk.verify(&m.0, &crafted).is_ok());
+                        o.f("wrapper_identity_R_strict", sk.verify_strict(&m.0, &crafted).is_ok());
+                    }
                 }
             }
-            Step::Ver { mode, key, m, sig, ctx, ch, chosen, d } => {
-                let vk = VerifyingKey::try_from(&key.0[..]).ok();
+            Step::Ver { mode, key, m, sig, ctx, ch, chosen, d, ksrc } => {
+                let vk = match ksrc {
+                    1 => Some(VerifyingKey::default()),
+                    2 => VerifyingKey::try_from(&key.0[..]).ok().map(|k| VerifyingKey::from(k.to_edwards())),
+                    _ => VerifyingKey::try_from(&key.0[..]).ok(),
+                };
                 let sg = Signature::from_slice(&sig.0).ok();
                 o.f("key_ok", vk.is_some());
                 o.f("sig_ok", sg.is_some());
